@@ -516,6 +516,7 @@ def perm_families():
     `c:dLblPos` was added, `a:lnSpc` after `a:spcBef`, ...)"""
     from pptx.dml.color import RGBColor
     from pptx.enum.chart import XL_LABEL_POSITION, XL_TICK_LABEL_POSITION, XL_TICK_MARK
+    from pptx.enum.dml import MSO_LINE
     from pptx.enum.shapes import MSO_SHAPE
     from pptx.enum.text import MSO_ANCHOR, MSO_AUTO_SIZE, PP_ALIGN
     from pptx.util import Pt
@@ -533,6 +534,30 @@ def perm_families():
             x[0].addnext(cg)
         else:
             spPr.insert(0, cg)
+
+    A_ = "http://schemas.openxmlformats.org/drawingml/2006/main"
+
+    def _inject_path(sh):
+        from pptx.oxml import parse_xml
+        for g in sh._element.spPr.xpath("./a:gradFill"):
+            for l in g.xpath("./a:lin | ./a:path"):
+                g.remove(l)
+            pth = parse_xml('<a:path xmlns:a="%s" path="circle"><a:fillToRect l="50000" t="50000" r="50000" b="50000"/></a:path>' % A_)
+            gs = g.xpath("./a:gsLst")
+            (gs[0].addnext(pth) if gs else g.insert(0, pth))
+
+    def _drop_lin(sh):
+        for l in sh._element.spPr.xpath("./a:gradFill/a:lin"):
+            l.getparent().remove(l)
+
+    def _inject_custdash(sh):
+        from pptx.oxml import parse_xml
+        for ln in sh._element.spPr.xpath("./a:ln"):
+            for d in ln.xpath("./a:prstDash | ./a:custDash"):
+                ln.remove(d)
+            cd = parse_xml('<a:custDash xmlns:a="%s"><a:ds d="300000" sp="100000"/></a:custDash>' % A_)
+            fills_ = ln.xpath("./a:noFill | ./a:solidFill | ./a:gradFill | ./a:pattFill")
+            (fills_[-1].addnext(cd) if fills_ else ln.insert(0, cd))
 
     def chart(prs, i=0):
         return [sh for sh in prs.slides[2].shapes if getattr(sh, "has_chart", False)][i].chart
@@ -597,6 +622,12 @@ def perm_families():
             ("inject a:custGeom (a picture cropped to a freeform, as PowerPoint writes it)", _inject_custgeom),
             set_("auto_shape_type", MSO_SHAPE.OVAL), set_("auto_shape_type", MSO_SHAPE.RECTANGLE), set_("crop_left", 0.1), set_("crop_bottom", 0.0),
             set_("line.width", 12700), call("line.fill.solid"), set_("rotation", 15.0)]),
+        ("gradient shading (states other producers write)", lambda prs: ((lambda sh: (sh, sh._element.spPr))(shape(prs))), [
+            call("fill.gradient"), ("replace a:lin by a:path (a radial gradient, as PowerPoint writes it)", _inject_path), ("remove a:lin (shading inherited)", _drop_lin),
+            set_("fill.gradient_angle", 45.0), set_("fill.gradient_angle", 0)]),
+        ("line dash (states other producers write)", lambda prs: ((lambda sh: (sh, sh._element.spPr))(shape(prs))), [
+            set_("line.width", 12700), ("inject a:custDash into a:ln", _inject_custdash), set_("line.dash_style", MSO_LINE.DASH), set_("line.dash_style", None),
+            call("line.fill.solid")]),
         ("shape properties", lambda prs: ((lambda sh: (sh, sh._element.spPr))(shape(prs))), [
             call("fill.solid"), call("fill.gradient"), call("fill.background"), set_("line.width", 12700), set_("line.color.rgb", RGBColor(9, 9, 9)),
             call("line.fill.background"), set_("shadow.inherit", False), set_("shadow.inherit", True), set_("rotation", 30.0), set_("left", 5),
